@@ -457,7 +457,9 @@ def step (st : St) (toks : List String) : St × List Issue :=
             -- pinning was switched off by a configuration change: UpdateContainer echoes the cpuset cached from before (the value the runtime already has)
             (if acc.1.cfgChanged && r.getD 0 "-" == c.rt.getD 0 "-" then errs ++ [s!"C12:cached-cpuset-echoed-after-pinning-disabled {id}"]
              else errs ++ [s!"C12:cpus-told-with-pinning-disabled {id}"]) else errs
-        let errs := if !cfgChanged && !acc.1.snap.pinMem && r.getD 1 "-" != "-" then
+        -- (the property speaks of a DIFFERENT set of memory nodes: the echo of the container's own value - UpdateContainer with unchanged
+        -- resources re-asserts every cached field - tells it nothing new)
+        let errs := if !cfgChanged && !acc.1.snap.pinMem && r.getD 1 "-" != "-" && (acc.1.cfgChanged || r.getD 1 "-" != c.rt.getD 1 "-") then
             (if acc.1.cfgChanged && r.getD 1 "-" == c.rt.getD 1 "-" then errs ++ [s!"C12:cached-mems-echoed-after-pinning-disabled {id}"]
              else errs ++ [s!"C12:mems-told-with-pinning-disabled {id}"]) else errs
         let rt' := overlay c.rt r
